@@ -221,11 +221,25 @@ def _ctrl_frame(rng, dim):
     return scale, off
 
 
+def _maybe_int(rng, P):
+    """a control net typed by hand: every coordinate an integer (ints, not floats)"""
+    if not rng.chance(0.2):
+        return P, False
+
+    def conv(x):
+        return [conv(y) for y in x] if isinstance(x, list) else int(round(x * 3)) + 0
+    Q = conv(P)
+    return Q, True
+
+
 def gen_curve(rng):
     dim = rng.wchoice([1, 2, 3, 4], [1, 3, 4, 1])
     deg = rng.wchoice([0, 1, 2, 3, 4, 5, 6, 8], [1, 2, 3, 4, 2, 2, 1, 1])
     scale, off = _ctrl_frame(rng, dim)
-    return {"P": [_ctrl_point(rng, dim, scale, off) for _ in range(deg + 1)]}
+    P, integer = _maybe_int(rng, [_ctrl_point(rng, dim, max(scale, 1.0), off) for _ in range(deg + 1)])
+    if not integer:
+        P = [_ctrl_point(rng, dim, scale, off) for _ in range(deg + 1)]
+    return {"P": P, "int": integer}
 
 
 def gen_patch(rng):
@@ -234,7 +248,10 @@ def gen_patch(rng):
     if rng.chance(0.3):
         n = m
     scale, off = _ctrl_frame(rng, dim)
-    return {"P": [[_ctrl_point(rng, dim, scale, off) for _ in range(n + 1)] for _ in range(m + 1)]}
+    P, integer = _maybe_int(rng, [[_ctrl_point(rng, dim, max(scale, 1.0), off) for _ in range(n + 1)] for _ in range(m + 1)])
+    if not integer:
+        P = [[_ctrl_point(rng, dim, scale, off) for _ in range(n + 1)] for _ in range(m + 1)]
+    return {"P": P, "int": integer}
 
 
 def _radius_class(r):
@@ -259,8 +276,8 @@ class C19(Sim):
     PROBES = ["radius<1", "radius>1", "grid_nonperfect_power", "grid_perfect_power", "box_dim>=4", "point_cloud_return",
               "normals_requested", "single_edge_polyline", "single_face_surface", "multi_component_polyline", "n1!=n2", "n1==n2",
               "chi2_test_run", "chi2_polyline", "chi2_surface", "t_out_of_range", "t_endpoint", "degree0", "patch_nonsquare_net",
-              "shared_stream_run", "large_centre"]
-    QUICK_RUNS = 6000
+              "shared_stream_run", "large_centre", "measured_then_deformed", "integer_control_net"]
+    QUICK_RUNS = 4500
     THOROUGH_RUNS = 300000
     BLOCK = 20
     ASSUMPTIONS = [
@@ -325,7 +342,7 @@ class C19(Sim):
             chi2["target"] = rng.randint(CHI2_MIN_DRAWS, 7000)
             clients.append("sharer")
             max_steps = rng.randint(8, 24)
-        return {"faults_on": faults_on, "prng_mode": prng_mode, "world": world, "ops": ops, "bops": bops, "clients": clients,
+        return {"stale_attrs": rng.chance(0.35), "faults_on": faults_on, "prng_mode": prng_mode, "world": world, "ops": ops, "bops": bops, "clients": clients,
                 "chi2": chi2, "max_steps": max_steps, "burst": rng.choice([0.2, 0.5, 0.8]),
                 "noise_rate": rng.choice([0.5, 1.0, 2.0]), "reject_rate": rng.choice([0.3, 0.6]),
                 "big_n": rng.chance(0.25)}
@@ -354,17 +371,37 @@ class C19(Sim):
             data.vertices += [list(p) for p in pl["points"]]
             for e in pl["edges"]:
                 data.edges.append(tuple(e))
-            self.polylines.append(M.mesh.PolyLine(data))
+            plm = M.mesh.PolyLine(data)
+            if cfg.get("stale_attrs"):
+                for i, p in enumerate(pl["points"]):
+                    plm.vertices[i] = M.Vec([3.0 * p[0] + 0.5 * p[1], 0.25 * p[1], p[2] + p[0]])
+                call(M.attributes.edge_length, plm)
+                for i, p in enumerate(pl["points"]):
+                    plm.vertices[i] = M.Vec([float(x) for x in p])
+            self.polylines.append(plm)
             self.segs.append(RefSegments(pl["points"], pl["edges"]))
         self.surfaces, self.tris = [], []
+        stale = bool(cfg.get("stale_attrs"))
+        if stale:
+            self.probes["measured_then_deformed"] += 1
         for sf in w["surfaces"]:
             data = RawMeshData()
-            data.vertices += [list(p) for p in sf["points"]]
+            # history: with 'stale_attrs' the mesh is first built in another shape, measured (the library stores areas, normals and
+            # lengths as persistent attributes), and only then deformed into the shape it has when it is sampled
+            data.vertices += [[3.0 * p[0] + 0.5 * p[1], 0.25 * p[1], p[2] + p[0]] if stale else list(p) for p in sf["points"]]
             data.faces += [list(f) for f in sf["faces"]]
-            self.surfaces.append(M.mesh.SurfaceMesh(data))
+            m = M.mesh.SurfaceMesh(data)
+            if stale:
+                call(M.attributes.face_area, m)
+                call(M.attributes.face_normals, m)
+                for i, p in enumerate(sf["points"]):
+                    m.vertices[i] = M.Vec([float(x) for x in p])
+            self.surfaces.append(m)
             with np.errstate(all="ignore"):
                 self.tris.append(RefTriangles(sf["points"], sf["faces"]))
         self.boxes = [M.geometry.AABB(list(b["mini"]), list(b["maxi"])) for b in w["boxes"]]
+        if any(c.get("int") for c in w["curves"] + w["patches"]):
+            self.probes["integer_control_net"] += 1
         self.curves = [M.splines.BezierCurve([list(p) for p in c["P"]]) for c in w["curves"]]
         self.patches = [M.splines.BezierPatch([[list(p) for p in row] for row in c["P"]]) for c in w["patches"]]
         self.shared = cfg["prng_mode"] == "shared_stream"
